@@ -193,7 +193,15 @@ def runner(run, g, fsdefs, roots, rng, info, count):
     import sys
     import tempfile
     repo = os.environ.get("VERIF_REPO", "/repo")
-    nested = sorted((sid, fi) for (sid, fi, _) in roots if any(e["m"] != e["d"] for e in fsdefs[fi]["g"]))
+    def enters_nested(sid, fi, trie):
+        """The program's first command loads a module that requires another one."""
+        if not trie:
+            return False
+        c, o, _ = g.out[sid][int(sorted(trie, key=int)[0])]
+        return (c["op"] == "require" and o["cls"] == "val"
+                and any(e["m"] == c["id"] and e["d"] != c["id"] for e in fsdefs[fi]["g"]))
+
+    nested = sorted((sid, fi) for (sid, fi, t) in roots if enters_nested(sid, fi, t))
     tries = {(sid, fi): t for (sid, fi, t) in roots}
     picks = rng.sample(nested, min(count, len(nested)))
     d = tempfile.mkdtemp(prefix="c11run-")
@@ -296,10 +304,31 @@ def run(run):
     rng = random.Random(run.seed)
     info = {}
     total_edges = total_evals = 0
+    seeds = {}
+
+    def sim_kw(num, cfg):
+        """(the TLC seed of a simulation is drawn once, when it is first asked for)"""
+        if cfg not in seeds:
+            seeds[cfg] = rng.randrange(1 << 30)
+        return dict(workers=1, simulate=f"num={num}", depth=900, seed=seeds[cfg])
+
+    ahead = S.Ahead()
+    ahead.graph("Modules_quick")
+    ahead.graph("Modules_pairs")
+    ahead.graph("Modules_sim", **sim_kw(1500 if quick else 10000, "Modules_sim"))
+    ahead.graph("Modules_spell")
+    try:
+        run_checks(run, quick, rng, info, ahead, sim_kw)
+    finally:
+        ahead.close()
+
+
+def run_checks(run, quick, rng, info, ahead, sim_kw):
+    total_edges = total_evals = 0
 
     def bfs(cfg, label, name, off=()):
         nonlocal total_edges, total_evals
-        g, res = S.tlc_graph(run, cfg, label, c11=True, off=off)
+        g, res = S.tlc_graph(run, cfg, label, c11=True, off=off, ahead=ahead if cfg in ahead.futs else None)
         fsdefs, roots = roots_of(g)
         t0 = time.time()
         e, v = S.walk(run, g, INTERPS, [(sid, fi, None) for sid, fi in roots], fsdefs, "cover",
@@ -313,8 +342,8 @@ def run(run):
 
     def sim(cfg, label, name, num):
         nonlocal total_edges, total_evals
-        g, res = S.tlc_graph(run, cfg, label, c11=True, workers=1, simulate=f"num={num}", depth=900,
-                             seed=rng.randrange(1 << 30))
+        g, res = S.tlc_graph(run, cfg, label, c11=True, ahead=ahead if cfg in ahead.futs else None,
+                             **sim_kw(num, cfg))
         fsdefs, roots, ntraces = traces_of(g, res)
         t0 = time.time()
         e, v = S.walk(run, g, INTERPS, roots, fsdefs, "trie", C11_VERDICT, "c11/" + cfg, loadcap=2)
